@@ -292,6 +292,17 @@ func c04Run(c *core.Ctx, idx int) {
 			c.Count("trees.with-wide-stack")
 		}
 	}
+	if r.Chance(1, 6) {
+		tree.Walk(func(n *TNode) {
+			if n.T == "stack" && r.Chance(1, 3) {
+				n.NoNest = true // switched on after the elements are in: says nothing about what is already held
+			}
+			if n.T == "cond" && n.Op != nil && r.Chance(1, 3) {
+				n.Op = &OpDesc{Code: 100 + r.Intn(3)}
+			}
+		})
+		c.Count("trees.with-late-no-nesting-or-zero-valued-operators")
+	}
 	if r.Chance(1, 8) {
 		// Conditions assembled piecemeal that never received an operator
 		tree.Walk(func(n *TNode) {
